@@ -9,7 +9,8 @@ operations issued through the public client API:
 Oracle: a *twin* file with the same initial content lives outside the served tree; the
 corresponding os.truncate / os.chmod / os.utime / os.chown is applied to it.  After every
 operation the served file must have the same bytes and the same st_size / st_mode / st_uid /
-st_gid as the twin, and after utime also the same st_atime / st_mtime (whole seconds - SFTP v3
+st_gid as the twin (st_mode compared in full: chmod arguments cover 0..0o7777, so whatever the local filesystem does
+with set-uid / set-gid / sticky for this user, on files and on directories, is what the served object must show), and after utime also the same st_atime / st_mtime (whole seconds - SFTP v3
 carries 32-bit seconds; for utime(None) the served times must lie between the wall-clock second
 before and after the call, which is what "now" means for os.utime(path, None) as well).
 Nothing is asserted about times after non-utime operations (mtime/ctime updates of truncate are
